@@ -55,6 +55,8 @@ type Session struct {
 	// FinishOnError selects the engine.Loop client style (Finish is always called) instead of the
 	// examples/http style (an error from Exec or Flush ends the request without Finish).
 	FinishOnError bool
+	// Flush makes the persister flush its state and memory after every successful Save (Persister.WithFlush).
+	Flush bool
 
 	en *engine.DefaultEngine
 	// St, Ca: the state and cache objects the engine works on. Long-lived: supplied by the harness;
@@ -117,6 +119,9 @@ func (s *Session) newEngine() (*engine.DefaultEngine, *persist.Persister) {
 		store := s.Open()
 		store.SetSession(s.Cfg.SessionId)
 		pe = persist.NewPersister(store)
+		if s.Flush {
+			pe = pe.WithFlush()
+		}
 		en = en.WithPersister(pe)
 	} else {
 		if s.Mode != KeptState || s.St == nil {
